@@ -761,6 +761,75 @@ def lbfgsb_stage(c):
       c.prop_fail('lbfgsb-same-seed-different-result', 'same seed, different candidates', case)
 
 
+def to_trials_stage(c):
+  """`best_candidates_to_trials`: each returned trial is ONE row of the result (its continuous part, its
+  categorical part and its reward belong to the same row), and trials come best first."""
+  E = env()
+  vb, jnp = E['vb'], E['jnp']
+  rng = c.rng
+  layouts = [(2, [3]), (1, [2, 4]), (0, [3, 2]), (3, []), (2, [5])]
+  if c.tier != 'quick':
+    layouts += [(rng.randrange(0, 4), [rng.randrange(2, 6) for _ in range(rng.randrange(1, 4))]) for _ in range(6)]
+  for li, (nc, ar) in enumerate(layouts):
+    r = Runner(Cfg('random', nc, ar, rng.choice([None, 'pow2']), 4, 2, 8, 0, 'to-trials'))
+    for rep in range(3 if c.tier == 'quick' else 8):
+      n = rng.randrange(2, 7)
+      for par in ([1] if rep else [1, 2]):
+        cont = np.zeros((n, par, r.ncp), dtype=r.fdtype)
+        cat = np.zeros((n, par, r.nkp), dtype=np.int32)
+        for i in range(n):
+          for j in range(par):
+            cont[i, j, :nc] = [round(rng.random(), 3) for _ in range(nc)]
+            cat[i, j, :len(ar)] = [rng.randrange(a) for a in ar]
+        kind = rng.choice(['distinct', 'ties', 'sorted-desc', 'neginf', 'nan'])
+        rew = [round(rng.uniform(-5, 5), 3) for _ in range(n)]
+        if kind == 'ties':
+          rew = [rng.choice([0.0, 1.0, 2.0]) for _ in range(n)]
+        elif kind == 'sorted-desc':
+          rew = sorted(rew, reverse=True)
+        elif kind == 'neginf':
+          rew[rng.randrange(n)] = -np.inf
+        elif kind == 'nan':
+          rew[rng.randrange(n)] = np.nan
+        rew = np.array(rew, dtype=r.fdtype)
+        res = vb.VectorizedStrategyResults(
+            features=vb.VectorizedOptimizerInput(jnp.asarray(cont), jnp.asarray(cat)), rewards=jnp.asarray(rew))
+        case = {'layout': {'nc': nc, 'ar': ar, 'pad': r.cfg.pad}, 'n_parallel': par, 'rewards': [repr(float(v)) for v in rew],
+                'cont': cont[:, :, :nc].tolist(), 'cat': cat[:, :, :len(ar)].tolist()}
+        c.count(1, ('to_trials', kind, par), kind='to_trials:' + kind)
+        c.traces += 1
+        try:
+          trials = vb.best_candidates_to_trials(res, r.conv)
+        except Exception as e:  # pylint: disable=broad-except
+          c.prop_fail('to-trials-raised', 'best_candidates_to_trials raised %s: %s' % (type(e).__name__, e), case)
+          continue
+
+        def row_params(i, j):
+          d = {'x%d' % t: 10.0 * float(cont[i, j, t]) for t in range(nc)}
+          d.update({'c%d' % t: str(int(cat[i, j, t])) for t in range(len(ar))})
+          return d
+
+        def tkey(d, rw):
+          return (tuple(sorted((k, round(v, 4) if isinstance(v, float) else v) for k, v in d.items())),
+                  'nan' if np.isnan(rw) else round(float(rw), 4))
+
+        want = collections.Counter(tkey(row_params(i, j), rew[i]) for i in range(n) for j in range(par))
+        got = collections.Counter()
+        accs = []
+        for t in trials:
+          acq = t.final_measurement.metrics['acquisition'].value
+          accs.append(acq)
+          got[tkey({k: (float(v) if not isinstance(v, str) else v) for k, v in t.parameters.as_dict().items()}, acq)] += 1
+        if got != want:
+          c.prop_fail('to-trials-row-mixed',
+                      'best_candidates_to_trials returned trials that are not the rows of the optimiser result (features of one row with the reward or features of another): extra %s, missing %s' % (
+                          list((got - want).elements())[:3], list((want - got).elements())[:3]), case)
+          continue
+        fin = [a for a in accs if not np.isnan(a)]
+        if any(fin[i] < fin[i + 1] for i in range(len(fin) - 1)):
+          c.prop_fail('to-trials-order', 'best_candidates_to_trials does not return the best candidate first: acquisition values %s' % accs, case)
+
+
 def run(c):
   c.proof_stage()
   state = {'exact': 0, 'compared': 0, 'random_pad': 'honoured'}
@@ -792,6 +861,7 @@ def run(c):
       c.prop_fail(KEY_NAN, 'score function = NaN (sign bit set, as produced by inf-inf) everywhere, count=2, 10 evaluations: returned rewards %s at features %s although the score function gives NaN there: lax.top_k ranks such NaNs below the -inf placeholders' % (
           outn['rewards'].tolist(), outn['cont'][:, 0].tolist()), {'config': wn.desc(), 'score': pdesc, 'seed': 5})
     c.flags['negativeNaNRanksBelowPlaceholder'] = bool(np.all(np.isneginf(outn['rewards'])))
+  to_trials_stage(c)
   fresh_rebuild_determinism(c, cfgs[0])
   if not quick:
     fresh_rebuild_determinism(c, cfgs[5])
